@@ -535,3 +535,35 @@ func init() {
 	})
 	reg("(*compress/gzip.Writer).Close", func(fr *frame, args []Value) Value { return Iface{} })
 }
+
+// ---------- regexp: opaque compiled object, pattern remembered ----------
+
+type regexObj struct{ pattern string }
+
+func init() {
+	compile := func(must bool) intrinsicFn {
+		return func(fr *frame, args []Value) Value {
+			e := fr.e
+			pat := e.mustConcStr(args[0], "regexp pattern")
+			rt := e.namedType("regexp", "Regexp")
+			var cell Value = e.zero(rt)
+			p := &cell
+			e.objs[fmt.Sprintf("regexp%p", p)] = &regexObj{pat}
+			if must {
+				return p
+			}
+			return Tuple{p, Iface{}}
+		}
+	}
+	reg("regexp.MustCompile", compile(true))
+	reg("regexp.Compile", compile(false))
+}
+
+func (e *Exec) regexOf(v Value) *regexObj {
+	p, _ := v.(*Value)
+	if p == nil {
+		return nil
+	}
+	r, _ := e.objs[fmt.Sprintf("regexp%p", p)].(*regexObj)
+	return r
+}
